@@ -612,8 +612,9 @@ do_write(khist_t *h, const kop_t *op) {
     vbuf = malloc(kv_vlen(VS_1M));
   wo.sync = op->sync;
   ldb_batch_init(&batch);
-  if (h->markers) {
-    /* unique marker key per batch: makes the surviving batch set observable */
+  if (h->markers && !(op->kind == OP_BATCH && op->n == 0)) {
+    /* unique marker key per batch: makes the surviving batch set observable
+       (a deliberately EMPTY batch stays empty: it has no effect whose survival could matter) */
     char mk[8];
     ldb_slice_t k, v;
     kv_marker_key(opidx, mk);
@@ -638,6 +639,7 @@ do_write(khist_t *h, const kop_t *op) {
     a->opidx = opidx;
     a->vid0 = kh_vid(opidx, 0);
     a->sync = op->sync;
+    a->empty = (op->kind == OP_BATCH && op->n == 0);
     a->op = *op;
     a->j_begin = vfs_cur ? vfs_jlen(vfs_cur) : 0;
     a->c_begin = vfs_cur ? vfs_cur->ncalls : 0;
